@@ -16,7 +16,8 @@ RULE = ("bounded-exhaustive: every sequence of length <= L (L=3 quick, 4 thoroug
         "/ never-stored cid, delete, delete_if_invalid right/wrong, store with wrong checksum/size) plus "
         "seeded random sequences of length 40 over the full public API (incl. metadata, reads, all data "
         "kinds, 12 algorithms; a third of them in other store configurations: depth 1/2/5, width 1/3/4, all five "
-        "store algorithms); after EVERY call the store directory is abstracted and compared with the "
+        "store algorithms; the instance is re-created now and then and two instances on the same directory are used "
+        "alternately); after EVERY call the store directory is abstracted and compared with the "
         "reference model (pid refs, cid lists as multisets of lines, objects, metadata, no tmp / *_delete "
         "residue, structural invariant). distinct_nontrivial = distinct (model state, operation shape) "
         "transitions in which the state is non-empty.")
@@ -51,10 +52,25 @@ def min_required(tier):
     return {"evaluations": 5000, "model_comparisons": 10000}
 
 
-def _run_seq(pool, ops, res, pids=PIDS, fmts=(None,)):
+def _run_seq(pool, ops, res, pids=PIDS, fmts=(None,), rng=None):
     w = pool.fresh(pids=pids, fmts=fmts)
     before = None
+    stores = [w.store]
     for i, op in enumerate(ops):
+        if rng is not None:
+            r = rng.random()
+            if r < 0.08:
+                # a fresh instance on the same directory (state must live on disk, not in the instance)
+                w.reopen()
+                stores = [w.store]
+                res.count("reopens")
+            elif r < 0.20:
+                # two instances on one directory, used alternately
+                if len(stores) == 1:
+                    from ..common import open_store
+                    stores.append(open_store(w.root, **w.cfg))
+                w.store = stores[rng.randrange(2)]
+                res.count("instance_switches")
         mkey = w.model.key()
         out, findings, _b, after = w.step(op, i, before=before)
         before = after
@@ -118,7 +134,7 @@ def run_shard(mode, n, firsts, sub_seed):
                         ops.append(random_meta_op(rng, pids, fmts, list(DOCS)))
                     else:
                         ops.append(random_object_op(rng, pids, ["A", "B"], kinds=("path", "Path", "file", "bytesio")))
-                done = _run_seq(pool, ops, res, pids=pids, fmts=fmts)
+                done = _run_seq(pool, ops, res, pids=pids, fmts=fmts, rng=rng)
                 res.evaluations += 1
                 if k == 0:
                     res.sample({"mode": "random", "ops": [op_shape(o) for o in ops[:12]], "executed": done})
